@@ -258,6 +258,16 @@ def run(rep, tier="quick", srcdir=None, only=None):
         C03.rule_TB6(rep, prog, q)
     if want("C03-MP9"):
         C03.rule_MP9(rep, prog, q)
+    if want("C03-MP11"):
+        C03.rule_MP11(rep, prog, q)
+    if want("C03-MP1"):
+        C03.rule_MP1(rep, prog)
+    if want("C03-MP7"):
+        C03.rule_MP7(rep, prog, q)
+    if want("C17-KA7"):
+        # a thread-bound serial queue must not hand its pending items to workers while its owner thread is still inside an item (shared with C17)
+        from . import C17
+        C17.rule_KA7(rep, prog, q)
 
 
 def run_thorough(rep, srcdir=None, only=None):
